@@ -30,6 +30,11 @@ def run_canaries(prop, tier, jobs=None):
     code = 0
     for c in cans:
         rc, ev = run_property(prop, tier, [(c["file"], c["old"], c["new"])], jobs, c.get("only"), quiet=True)
+        msgs = (ev or {}).get("coverage", {}).get("messages", [])
+        if rc == 3 and any("text to replace occurs" in m for m in msgs):
+            # the tree was edited where the canary applies: the canary says nothing about this tree
+            info.setdefault("not_applicable", []).append(c["id"])
+            continue
         info["run"] += 1
         if rc == 1:
             info["detected"] += 1
